@@ -270,14 +270,44 @@ func (H) Execute(scAny any, cfg simrt.Config, st *core.Stats) (*simrt.Outcome, *
 					model = append(model[:idx], model[idx+1:]...)
 				}
 			}
-			n := len(s)
-			if sc.Kind == "queue" {
-				n = q.Len()
+			// Len where the history asks for it and after every other step: an
+			// implementation that reconciles a lazily kept count inside Len must also be
+			// right when Len is not called in between
+			if sc.Ops[i] == 'L' || i%2 == 0 || i == len(sc.Ops)-1 {
+				n := len(s)
+				if sc.Kind == "queue" {
+					n = q.Len()
+				}
+				if n != len(model) {
+					fail("len-mismatch", "Len=%d want %d", n, len(model))
+					return
+				}
 			}
-			if n != len(model) {
-				fail("len-mismatch", "Len=%d want %d", n, len(model))
+		}
+		// what is still inside at the end comes out in order too, down to the empty case
+		for k := 0; k <= len(model); {
+			var got int
+			var ok bool
+			if sc.Kind == "queue" {
+				got, ok = q.Dequeue()
+			} else {
+				got, ok = s.Pop()
+			}
+			if len(model) == 0 {
+				if ok || got != 0 {
+					v = &core.Violation{Signature: sc.Kind + ":empty-result", Detail: fmt.Sprintf("final drain: returned (%d,%v) on an empty container", got, ok)}
+				}
 				return
 			}
+			idx := 0
+			if sc.Kind == "stack" {
+				idx = len(model) - 1
+			}
+			if !ok || got != model[idx] {
+				v = &core.Violation{Signature: sc.Kind + ":wrong-value", Detail: fmt.Sprintf("final drain: returned (%d,%v), want (%d,true); %d values were left", got, ok, model[idx], len(model))}
+				return
+			}
+			model = append(model[:idx], model[idx+1:]...)
 		}
 	}
 	out := core.RunSequential(cfg, body)
